@@ -122,24 +122,24 @@ Proof.
   intros Hcl Hall. induction others as [|c r IH]; simpl.
   - split; auto.
   - inversion Hall as [|? ? Hc Hr]; subst. specialize (IH Hr).
+    rewrite Forall_cons_iff.
     destruct (cname_eqb cl c) eqn:E.
     + apply cname_eqb_eq in E. subst c. rewrite IH. split.
-      * intros H. constructor; [intros Hne; congruence | exact H].
-      * intros H. inversion H; assumption.
-    + unfold has_dict in Hcl, Hc.
+      * intros H. split; [intros Hne; congruence | exact H].
+      * intros [_ H]. exact H.
+    + assert (Hne : c <> cl).
+      { intros ->. rewrite (proj2 (cname_eqb_eq cl cl) eq_refl) in E. discriminate. }
+      unfold has_dict in Hcl, Hc.
       destruct (class_dict o cl) as [d1|] eqn:E1; [|discriminate].
       destruct (class_dict o c) as [d2|] eqn:E2; [|discriminate].
       rewrite (class_keys_eq _ _ _ E1), (class_keys_eq _ _ _ E2). cbn [bind].
       unfold disjoint_pair at 1.
       rewrite (class_keys_spec_eq _ _ _ E1), (class_keys_spec_eq _ _ _ E2).
       destruct (intersects (map fst d1) (map fst d2)) eqn:Ei.
-      * split; [discriminate|]. intros H. inversion H as [|? ? Hd _]; subst.
-        assert (c <> cl).
-        { intros ->. rewrite (proj2 (cname_eqb_eq cl cl) eq_refl) in E. discriminate. }
-        specialize (Hd H0). discriminate.
+      * split; [discriminate|]. intros [Hd _]. specialize (Hd Hne). discriminate.
       * rewrite IH. split.
-        -- intros H. constructor; [intros _; reflexivity | exact H].
-        -- intros H. inversion H; assumption.
+        -- intros H. split; [intros _; reflexivity | exact H].
+        -- intros [_ H]. exact H.
 Qed.
 
 Lemma check_unique_ok (o : obj) vc :
